@@ -55,6 +55,27 @@ func (fr *Frame) computeOrdinals() {
 					kind = "dyncall"
 				}
 				items = append(items, item{in, kind, bi, ii})
+			case *ssa.Store:
+				// stores into heap memory (not into a local variable)
+				root := x.Addr
+				for {
+					if fa, ok := root.(*ssa.FieldAddr); ok {
+						root = fa.X
+						continue
+					}
+					if ia, ok := root.(*ssa.IndexAddr); ok {
+						if _, isSl := under(ia.X.Type()).(*types.Slice); isSl {
+							root = nil
+							break
+						}
+						root = ia.X
+						continue
+					}
+					break
+				}
+				if _, isAlloc := root.(*ssa.Alloc); !isAlloc {
+					items = append(items, item{in, "store", bi, ii})
+				}
 			case *ssa.MapUpdate:
 				items = append(items, item{in, "mapupdate", bi, ii})
 			case *ssa.Send:
@@ -481,6 +502,9 @@ func (vc *VC) envFor(fr *Frame, st *State) *Env {
 			e.loopAt[fmt.Sprintf("pre%d", li.ordinal)] = li.preState
 		}
 	}
+	if fr.callPre != nil {
+		e.loopAt["call"] = fr.callPre
+	}
 	return e
 }
 
@@ -536,6 +560,11 @@ func (fr *Frame) defProps() []string {
 
 func (vc *VC) loopHead(fr *Frame, li *loopInfo, st *State, reach string) *State {
 	vc.comment(fmt.Sprintf("loop %d head", li.ordinal))
+	if li.spec != nil && len(li.spec.PreHints) > 0 {
+		henv := vc.envFor(fr, st)
+		vc.loopHash(fr, li, st, henv)
+		vc.runHints(fr, st, reach, li.spec.PreHints, henv, fmt.Sprintf("loop%d-pre", li.ordinal))
+	}
 	li.preState = st.clone()
 	// 1. invariants on entry
 	env0 := vc.envFor(fr, st)
@@ -616,6 +645,11 @@ func (vc *VC) loopInvariants(fr *Frame, li *loopInfo) []*Clause {
 }
 
 func (vc *VC) backEdge(fr *Frame, li *loopInfo, st *State, guard string) {
+	if li.spec != nil && len(li.spec.EndHints) > 0 {
+		henv := vc.envFor(fr, st)
+		vc.loopHashBody(fr, li, st, henv)
+		vc.runHints(fr, st, guard, li.spec.EndHints, henv, fmt.Sprintf("loop%d-end", li.ordinal))
+	}
 	env := vc.envFor(fr, st)
 	vc.loopHash(fr, li, st, env)
 	for i, inv := range vc.loopInvariants(fr, li) {
@@ -915,6 +949,9 @@ func (vc *VC) execInstr(fr *Frame, st *State, reach string, instr ssa.Instructio
 		vc.nilCheck(fr, reach, pv, x)
 		vc.frameCheck(fr, st, reach, vc.addrOf(pv), x)
 		vc.store(st, pv, vc.valTerm(v))
+		if n, ok := fr.ordinal[x]; ok {
+			vc.ghostPoint(fr, st, reach, "after", "store", n, "")
+		}
 		// remember statically known function values stored in local cells
 	case *ssa.UnOp:
 		vc.execUnOp(fr, st, reach, x)
